@@ -38,6 +38,10 @@ THEOREMS = [
     "C10_running_has_job",
     "C10_refused_submission_witness",
     "C10_shutdown_built_witness",
+    "C10_visible_or_equal",
+    "C10_quiet_cancel_witness",
+    "C10_labels_bind",
+    "C10_label_capture_witness",
 ]
 RULE = (
     "seeded random graphs (function nodes, macros nested to depth 3, workflows; 1-4 children per level, random data "
@@ -244,7 +248,9 @@ def _gen_ops(rng, root):
                 ops += _gen_edits(rng, root, slots, kids, rng.randint(1, 2), out=False)
             ops.append(["submit"])
             ops += _gen_edits(rng, root, slots, kids, rng.randint(0, 4), out=True)
-            ops.append(["complete"])
+            # the executor runs the job to its end, withdraws it before it starts, or loses it
+            r = rng.random()
+            ops.append(["complete"] if r < 0.8 else (["cancel"] if r < 0.92 else ["lose"]))
     if rng.random() < 0.5:
         ops += _gen_edits(rng, root, slots, kids, 1, out=False)
     return ops
@@ -314,6 +320,23 @@ def gen_cases(rng, tier):
         c = _gen_route(rng)
         if c is not None:
             yield c
+    # input labels that are parameter names somewhere between `run` and the function, on every executor kind
+    from .nodes_c10 import COLLIDING  # noqa: PLC0415  (a plain list of names)
+
+    emu = ["is", "iv", "xs", "xv"]
+    for lab in COLLIDING:
+        for macro in (0, 1):
+            yield {"kind": "labels", "label": lab, "exe": rng.choice(emu), "macro": macro}
+            if tier == "thorough":
+                for tok in emu:
+                    yield {"kind": "labels", "label": lab, "exe": tok, "macro": macro}
+    realk = ["rc", "rt", "rp", "xrc"]
+    picks = COLLIDING if tier == "thorough" else ["fn"] + rng.sample(COLLIDING, 5)
+    for i, lab in enumerate(picks):
+        yield {"kind": "labels", "label": lab, "exe": "rc" if lab == "fn" or tier == "thorough" else realk[i % 4],
+               "macro": i % 2 if lab != "fn" else 0}
+        if tier == "thorough":
+            yield {"kind": "labels", "label": lab, "exe": realk[1 + i % 3], "macro": (i + 1) % 2}
     # executor objects: live / instructions with every sharing pattern, repeated submissions, any completion order
     for _ in range(40 if tier == "quick" else 600):
         yield _gen_pools(rng)
@@ -372,7 +395,8 @@ def _gen_route(rng):
         a = attack(True)
         if a:
             ops.append(a)
-    ops.append(["completeat", list(target)])
+    r = rng.random()
+    ops.append([("completeat" if r < 0.8 else ("cancelat" if r < 0.92 else "loseat")), list(target)])
     for _ in range(rng.randint(0, 2)):
         a = attack(False)
         if a:
@@ -505,6 +529,14 @@ def corpus():
                                                          ([0, 0], 1, "value"), ([0, 0], 0, "copy"),
                                                          ([0, 0], 2, "fetch"), ([0, 0], 1, "kw"), ([0, 1], 2, "value"))] +
                [["completeat", [0, 0]], ["setat", [], 0, "c8", "value"], ["run"]])
+    # an earlier successful run, new inputs, the job withdrawn before it starts / lost: fails visibly, never stale
+    yield dict(base, root=fn(5, ["c1", "d", "d"], "is"),
+               ops=[["submit"], ["complete"], ["set", 0, "c2"], ["submit"], ["cancel"], ["set", 0, "c3"]])
+    yield dict(base, root=m2("iv", "c1", "c2"),
+               ops=[["submit"], ["complete"], ["set", 0, "c4"], ["submit"], ["lose"], ["set", 1, "c3"]])
+    # input labels that are parameter names of the run / submit machinery, on the library's own executor
+    yield {"kind": "labels", "label": "fn", "exe": "rc", "macro": 0}
+    yield {"kind": "labels", "label": "fn", "exe": "iv", "macro": 1}
     # executor instructions that hand out one shared pool; a pool that is shut down (submission refused)
     yield {"kind": "pools", "pools": ["live"], "ops": [["submit", 0, ["shared", 0]], ["complete", 0],
                                                          ["submit", 1, ["shared", 0]], ["submit", 0, ["shared", 0]],
@@ -827,6 +859,26 @@ def _variant():
         v += [shut, settle]
     except BaseException:  # noqa: BLE001
         v += [0, 0]
+    # a job cancelled before the executor started it: does the node come back failed?
+    try:
+        from concurrent.futures import Future
+
+        nodes.reset()
+        n3 = nodes.term_node(3, label="p3")
+        n3.use_cache = False
+        n3.executor = CtlExe(sched, False, True, "pickle", [])
+        fut = n3.run()
+        quiet = 0
+        if isinstance(fut, Future):
+            del sched.jobs[:]
+            try:
+                fut.cancel()
+            except BaseException:  # noqa: BLE001
+                pass
+            quiet = int(not n3.failed)
+        v.append(quiet)
+    except BaseException:  # noqa: BLE001
+        v.append(0)
     nodes.reset()
     nc.reset()
     _CACHE["variant"] = v
@@ -875,6 +927,8 @@ def run_impl(case):
         return _run_pools(case)
     if case["kind"] == "extconn":
         return _run_extconn(case)
+    if case["kind"] == "labels":
+        return _run_labels(case)
     return {"obs": [], "stats": {"malformed": 1}}
 
 
@@ -1055,6 +1109,30 @@ def _run_tree(case):
                         _run_job(job)
                 state["out"] = False
                 return "ok"
+            if kind in ("cancel", "lose", "cancelat", "loseat"):
+                if is_twin:
+                    return "ok"
+                n = t if kind in ("cancel", "lose") else real_at(t, op[1])
+                if kind in ("cancel", "lose") and not state["out"]:
+                    return "notOut"
+                job = next((j for j in sched.jobs if j[0] is n), None)
+                if job is None:
+                    return "notOut"
+                sched.jobs.remove(job)
+                fut = job[1]
+                try:
+                    with Instrument(sched):
+                        if kind.startswith("cancel"):
+                            fut.cancel()  # pending: the callbacks run with a cancelled future
+                        else:
+                            from concurrent.futures import BrokenExecutor
+
+                            fut.set_running_or_notify_cancel()
+                            fut.set_exception(BrokenExecutor("the pool went away with the job"))
+                finally:
+                    if kind in ("cancel", "lose"):
+                        state["out"] = False
+                return "ok"
             if kind == "set":
                 t.inputs[in_label(t, op[1])].value = op[2]
                 return "ok"
@@ -1137,7 +1215,7 @@ def _run_tree(case):
                 exc = excs[0] if excs else None
                 if op[0] == "submitat" and res == "future":
                     state["inner"] = state.get("inner", 0) + 1
-                elif op[0] == "completeat" and res == "ok":
+                elif op[0] in ("completeat", "cancelat", "loseat") and res == "ok":
                     state["inner"] = max(0, state.get("inner", 0) - 1)
                 if not real and not state["out"] and not state.get("inner"):
                     # whatever is still outstanding after the root returned (late completions)
@@ -1156,13 +1234,13 @@ def _run_tree(case):
                     tres = apply(twin, op, True)
                 elif op[0] == "submit":
                     tres = apply(twin, op, True) if res == "future" else None
-                elif op[0] == "complete":
+                elif op[0] in ("complete", "cancel", "lose"):
                     tres = "ok" if was_out else None
                 elif op[0] in ("set", "setkid", "fetch"):
                     tres = apply(twin, op, True) if not was_out else None
                 elif op[0] in ("connect", "disconnect"):
                     tres = apply(twin, op, True)
-                elif op[0] in ("submitat", "completeat", "setat"):
+                elif op[0] in ("submitat", "completeat", "setat", "cancelat", "loseat"):
                     routed = True
                 d = dump(top)
                 obs += [f"res {res}"] + d + [ext_line(top, ext, state["out"]), "end"]
@@ -1291,6 +1369,89 @@ def _run_unused(case):
     return {"obs": [], "unused": {"res": res, "impl": term_str(m.outputs.o.value), "twin": term_str(t.outputs.o.value),
                                   "failed": bool(m.failed), "running": bool(m.running)},
             "callback_errors": cb.records, "stats": {"unused_cases": 1}}
+
+
+def _run_labels(case):
+    """a node whose input channel is labelled like a parameter of the run / submit machinery, alone and as the
+    child of a workflow, on one executor kind, against the local run"""
+    from concurrent.futures import Future, ProcessPoolExecutor, ThreadPoolExecutor
+
+    from pyiron_workflow import Workflow
+    from pyiron_workflow.executors import CloudpickleProcessPoolExecutor
+
+    from . import nodes, nodes_c10 as nc
+    from .execsim import Instrument, Scheduler, _run_job, term_str
+
+    nodes.reset()
+    nc.reset()
+    lab, tok = case["label"], case["exe"]
+    cls = (nc.LABELLED_MACRO if case["macro"] else nc.LABELLED).get(lab)
+    if cls is None or isinstance(cls, str):
+        return {"obs": [], "labels": {"created": False, "why": cls}, "callback_errors": [],
+                "stats": {"label_cases": 1, "label_refused_at_creation": 1}}
+    CtlExe = _mk_exe_class()
+    sched = Scheduler([])
+    pools = []
+
+    def exe():
+        if tok in ("is", "iv"):
+            return CtlExe(sched, tok == "iv", True, "cloudpickle", [])
+        if tok in ("xs", "xv"):
+            nc.REGISTRY["s"] = CtlExe(sched, False, True, "pickle", [])
+            nc.REGISTRY["v"] = CtlExe(sched, True, True, "pickle", [])
+            return (nc.make_executor, ("v" if tok == "xv" else "s",), {})
+        if tok == "xrc":
+            return (nc.make_executor, ("real-cloud",), {})
+        e = {"rt": ThreadPoolExecutor, "rp": ProcessPoolExecutor, "rc": CloudpickleProcessPoolExecutor}[tok](1)
+        pools.append(e)
+        return e
+
+    def one(with_exe, in_wf):
+        try:
+            n = cls(label="n", **{lab: "c1"})
+        except Exception as e:  # noqa: BLE001
+            return {"res": f"ctor:{type(e).__name__}"}
+        _no_cache(n)
+        top = n
+        if in_wf:
+            top = Workflow("w", autoload=None)
+            top.add_child(n)
+            top.use_cache = False
+        if with_exe:
+            n.executor = exe()
+        res = "ok"
+        try:
+            real = tok in REAL
+            if real:
+                r = top.run()
+                if isinstance(r, Future):
+                    r.result(120)
+                    import time
+
+                    t0 = time.time()
+                    while n.running and time.time() - t0 < 60:
+                        time.sleep(0.002)
+            else:
+                with Instrument(sched):
+                    top.run()
+                    while sched.jobs:
+                        _run_job(sched.jobs.pop(0))
+        except BaseException as e:  # noqa: BLE001
+            res = f"exc:{type(e).__name__}"
+        return {"res": res, "out": term_str(n.outputs.o.value), "failed": bool(n.failed), "running": bool(n.running)}
+
+    with _CallbackLog() as cb:
+        try:
+            rows = {"alone": (one(True, False), one(False, False)), "child": (one(True, True), one(False, True))}
+        finally:
+            for e in pools + list(nc.CREATED):
+                try:
+                    e.shutdown(wait=True, cancel_futures=True)
+                except Exception:  # noqa: BLE001
+                    pass
+            nc.CREATED.clear()
+    return {"obs": [], "labels": {"created": True, "rows": rows}, "callback_errors": cb.records,
+            "stats": {"label_cases": 1, f"label_exe:{tok}": 1}}
 
 
 def _run_extconn(case):
@@ -1472,7 +1633,7 @@ def nontrivial(case, r):
     if case["kind"] == "pools":
         return any(row["res"] == "future" for row in r.get("rows", []))
     if case["kind"] != "tree":
-        return case["kind"] in ("for", "unused", "extconn")
+        return case["kind"] in ("for", "unused", "extconn") or (case["kind"] == "labels" and r["labels"]["created"])
     return bool(r.get("pokes")) or any(row["res"] == "future" for row in r.get("rows", []))
 
 
@@ -1517,7 +1678,7 @@ def model_input(case, impl=None):
     if case["kind"] == "malformed":
         return list(case["lines"])
     if case["kind"] == "pools":
-        variant = impl.get("variant", [0, 0, 0, 1, 0, 0]) if impl else [0, 0, 0, 1, 0, 0]
+        variant = impl.get("variant", [0, 0, 0, 1, 0, 0, 0]) if impl else [0, 0, 0, 1, 0, 0, 0]
         lines = [f"pcfg {variant[4]} {variant[5]}", "pools " + " ".join(case["pools"])]
         for op in case["ops"]:
             if op[0] == "submit":
@@ -1527,8 +1688,8 @@ def model_input(case, impl=None):
         return lines
     if case["kind"] != "tree":
         return []
-    variant = impl.get("variant", [0, 0, 0, 1, 0, 0]) if impl else [0, 0, 0, 1, 0, 0]
-    lines = ["cfg " + " ".join(map(str, variant[:4]))]
+    variant = impl.get("variant", [0, 0, 0, 1, 0, 0, 0]) if impl else [0, 0, 0, 1, 0, 0, 0]
+    lines = ["cfg " + " ".join(map(str, variant[:4] + variant[6:7]))]
     if case["fails"]:
         lines.append("fails " + " ".join(map(str, case["fails"])))
     root = case["root"]
@@ -1550,8 +1711,8 @@ def model_input(case, impl=None):
             lines.append(f"disconnect {op[1]}")
         elif k == "submitat":
             lines.append(f"submitat {_mpath(case, op[1])} {snap}")
-        elif k == "completeat":
-            lines.append(f"completeat {_mpath(case, op[1])}")
+        elif k in ("completeat", "cancelat", "loseat"):
+            lines.append(f"{k} {_mpath(case, op[1])}")
         elif k == "setat":
             lines.append(f"setat {_mpath(case, op[1])} {op[2]} {show(enc_spec(op[3]))}")
         else:
@@ -1685,6 +1846,16 @@ def oracle(case, r):
         return _oracle_for(case, r)
     if case["kind"] == "pools":
         return _oracle_pools(case, r)
+    if case["kind"] == "labels":
+        L = r["labels"]
+        out = []
+        if L["created"]:
+            for where, (remote, local) in L["rows"].items():
+                if remote != local:
+                    out.append(_fail("same-outputs", f"input labelled `{case['label']}` ({'macro' if case['macro'] else 'function node'}, "
+                                     f"{where}) on {case['exe']}: {remote} vs local {local}; callback: "
+                                     f"{r['callback_errors'][:1]}", kind="labels"))
+        return out
     if case["kind"] == "extconn":
         e = r["ext"]
         i, t = e["impl"], e["twin"]
@@ -1714,6 +1885,8 @@ def oracle(case, r):
     top_kind = case["root"]["t"]
     merged = False  # a composite came back from a by-value executor before this op
     has_bv_comp = any(nd["t"] != "fn" and nd["exe"] in BYVALUE for _p, nd in walk(case["root"]))
+    # faults injected by the case itself: a function made to raise, a job withdrawn or lost by the executor
+    faulty = bool(case["fails"]) or any(o[0] in ("cancel", "lose", "cancelat", "loseat") for o in case["ops"])
     seen = set()
     accepted = False  # an edit was accepted while the root was out: the twin's history differs from here on
 
@@ -1743,13 +1916,24 @@ def oracle(case, r):
             add(_fail("run-raises", f"op #{k} {op}: {res}; callback: {r['callback_errors'][:1]}",
                       exc=res.split(":")[1] if ":" in res else res, cause=_cause(case, merged)))
         if op[0] in ("run", "complete") and res == "raised":
-            injected = row.get("exc") in ("Boom", "FailedChildError")
-            if not case["fails"] or not injected:
+            injected = row.get("exc") in ("Boom", "FailedChildError", "CancelledError", "BrokenExecutor")
+            if not faulty or not injected:
                 add(_fail("run-raises", f"op #{k} {op}: raised {row.get('exc')} "
-                          f"({'no function fails' if not case['fails'] else 'not the injected failure'}); callback: "
+                          f"({'no fault was injected' if not faulty else 'not the injected fault'}); callback: "
                           f"{r['callback_errors'][:1]}", exc=row.get("exc"), byvalue_comp=has_bv_comp,
                           cause=_cause(case, merged)))
         finished = (op[0] == "run" and res in ("ok", "raised")) or (op[0] == "complete" and res == "ok")
+        if op[0] in ("cancel", "lose") and res == "ok":
+            # the executor never delivered: the node must fail visibly — or show what a local run would give
+            if cur["0"]["f"] == "1":
+                accepted = True  # the histories of graph and twin part here (and rightly so)
+                if cur["0"]["r"] == "1":
+                    add(_fail("nothing-running", f"op #{k} {op}: the root is still running", where="root",
+                              after_merge=merged))
+            else:
+                finished = True
+                add(_fail("same-outputs", f"op #{k} {op}: the job never ran but the root is not marked failed "
+                          f"(outputs {cur['0']['o']} next to inputs {cur['0']['i']})", cause="quiet-" + op[0]))
         if finished:
             # ---- nothing is left running
             running = [p for p, d in cur.items() if d["r"] == "1"]
@@ -1798,6 +1982,12 @@ def oracle(case, r):
         if op[0] == "submitat" and res == "future":
             mp = "0" if not op[1] else "0." + _mpath(case, op[1])
             out_at[mp] = cur[mp]["i"]
+        elif op[0] in ("cancelat", "loseat") and res == "ok":
+            mp = "0" if not op[1] else "0." + _mpath(case, op[1])
+            out_at.pop(mp, None)
+            if cur[mp]["f"] != "1" or cur[mp]["r"] == "1":
+                add(_fail("same-outputs", f"op #{k} {op}: the job of {mp} never ran but the node shows f={cur[mp]['f']} "
+                          f"r={cur[mp]['r']} o={cur[mp]['o']}", cause="quiet-" + op[0][:-2]))
         elif op[0] == "completeat" and res == "ok":
             mp = "0" if not op[1] else "0." + _mpath(case, op[1])
             held = out_at.pop(mp, None)
@@ -1825,7 +2015,7 @@ def oracle(case, r):
         add(_fail("frozen", f"an out node accepted an input assignment: {bad[:3]}", op="poke", top=top_kind,
                   after_merge=_poke_after_merge(case)))
     # ---- no exception inside a done-callback unless a function was made to fail
-    if r["callback_errors"] and not case["fails"]:
+    if r["callback_errors"] and not faulty:
         add(_fail("callback-exception", f"{r['callback_errors'][:2]}", byvalue_comp=has_bv_comp))
     if r.get("notes"):
         add(_fail("nothing-running", f"jobs outstanding after the root returned: {r['notes']}", where="late",
